@@ -252,6 +252,32 @@ class TLCResult:
         return cov
 
 
+def _tlc_slot():
+    """Machine-wide limit on concurrently running TLC processes (several checks may run at once, each with 16 trace
+    shards): take one of NCPU + 8 lock files, waiting if all are held.  One check alone never waits.  Best effort: any
+    error means no limit."""
+    import fcntl
+    try:
+        d = os.environ.get('VERIF_SLOTS', '/tmp/verif-tlc-slots')
+        os.makedirs(d, exist_ok=True)
+        n = (os.cpu_count() or 16) + 8
+        start = (os.getpid() * 7 + _tlc_seq[0]) % n
+        waited = 0.0
+        while waited < 7200:
+            for i in range(n):
+                fd = os.open(os.path.join(d, 'slot%d' % ((start + i) % n)), os.O_CREAT | os.O_RDWR, 0o666)
+                try:
+                    fcntl.flock(fd, fcntl.LOCK_EX | fcntl.LOCK_NB)
+                    return fd
+                except OSError:
+                    os.close(fd)
+            time.sleep(0.25)
+            waited += 0.25
+    except Exception:
+        pass
+    return None
+
+
 def tlc(module, cfg=None, workers=None, env=None, timeout=1800, simulate=None,
         depth=None, seed=None, coverage=False, heap='8g', extra=(), deque=False,
         keep_out=None):
@@ -280,9 +306,14 @@ def tlc(module, cfg=None, workers=None, env=None, timeout=1800, simulate=None,
     e.pop('JAVA_TOOL_OPTIONS', None)
     if env:
         e.update({k: str(v) for k, v in env.items()})
+    slot = _tlc_slot()
     t0 = time.time()
-    p = subprocess.run(cmd, stdout=subprocess.PIPE, stderr=subprocess.STDOUT, env=e,
-                       universal_newlines=True, cwd=SPEC, errors='replace')
+    try:
+        p = subprocess.run(cmd, stdout=subprocess.PIPE, stderr=subprocess.STDOUT, env=e,
+                           universal_newlines=True, cwd=SPEC, errors='replace')
+    finally:
+        if slot is not None:
+            os.close(slot)
     shutil.rmtree(md, ignore_errors=True)
     res = TLCResult(p.returncode, p.stdout, time.time() - t0)
     if keep_out:
